@@ -27,66 +27,9 @@ fn mk_case(tcs: Vec<String>, s: Settings) -> Option<Case> {
     Some(Case { tcs, s, rust_out, d1 })
 }
 
-pub fn run(ctx: &Ctx) -> i32 {
-    let seed = ctx.seed();
-    let pymod = "/verif/.build/pymod";
-    let python = std::fs::read_to_string(format!("{pymod}/python-path")).map(|s| s.trim().to_string()).unwrap_or_else(|_| "python3".into());
-    if !std::path::Path::new(&format!("{pymod}/grex.so")).exists() {
-        println!("[C14] ERROR: {pymod}/grex.so missing (build_python.sh failed?)");
-        return 3;
-    }
-    // ---- workload
-    let mut cases: Vec<Case> = vec![];
-    let widths = ["\u{80}", "\u{e9}", "\u{100}", "\u{fff}", "\u{1000}", "\u{ffff}", "\u{10000}", "\u{fffff}", "\u{100000}", "\u{10ffff}", "a", "\u{7f}", "💩", "♥"];
-    let esc_modes = [0, ESC, ESC | SURR];
-    let others: Vec<u32> = if ctx.thorough { vec![0, REP, VERB, CI, CAP, REP | VERB, NOSTART | NOEND, CI | VERB | CAP, DIGIT, NWORD | REP] } else { vec![0, REP, VERB, CI | CAP, NWORD] };
-    // every code point width alone, doubled, tripled, and next to each other width
-    for (i, w) in widths.iter().enumerate() {
-        for e in esc_modes {
-            for o in &others {
-                let s = Settings::new(e | o);
-                for t in [vec![w.to_string()], vec![w.repeat(3)], vec![format!("{w}{w}a"), w.to_string()]] {
-                    cases.extend(mk_case(t, s));
-                }
-                let v = widths[(i + 1) % widths.len()];
-                cases.extend(mk_case(vec![format!("{w}{v}"), format!("{v}{w}"), w.to_string()], s));
-            }
-        }
-    }
-    // every single setter and every pair on a discriminating input
-    let disc: Vec<String> = ["aaa bb 12 É💩.", "aaa bb", "a", "xyxyxy", "AAA BB"].iter().map(|s| s.to_string()).collect();
-    let flags: Vec<u32> = FLAG_NAMES.iter().map(|(_, f)| *f).filter(|f| *f != COLOR).collect();
-    for (i, &f) in flags.iter().enumerate() {
-        cases.extend(mk_case(disc.clone(), Settings::new(f).normalised()));
-        for &g in &flags[i + 1..] {
-            cases.extend(mk_case(disc.clone(), Settings::new(f | g).normalised()));
-        }
-    }
-    for m in 1..=3 {
-        for l in 1..=3 {
-            cases.extend(mk_case(disc.clone(), Settings::with(REP, m, l)));
-        }
-    }
-    // random
-    let n = if ctx.thorough { 40_000 } else { 3_000 };
-    let names = ["astral", "mixed", "meta", "ws", "graph", "case", "classes", "ab"];
-    let alphabets: Vec<Vec<String>> = names.iter().map(|a| gen::alphabet(a)).collect();
-    for i in 0..n {
-        let mut rng = Rng::new(seed, 0x140_0000 + i as u64);
-        let al = if i % 3 == 0 { &alphabets[0] } else { &alphabets[i % alphabets.len()] };
-        let tcs = gen::family(&mut rng, al);
-        let mut s = gen::settings(&mut rng, ALLOWED);
-        if rng.chance(1, 2) {
-            s.flags |= ESC;
-            if rng.chance(1, 3) {
-                s.flags |= SURR;
-            }
-        }
-        // thresholds must fit Python's i32 parameter
-        s.min_rep = s.min_rep.min(i32::MAX as u32);
-        s.min_len = s.min_len.min(i32::MAX as u32);
-        cases.extend(mk_case(tcs, s));
-    }
+
+/// Replays `cases` through the real extension module (sharded over processes) and records verdicts.
+fn through_module(ctx: &Ctx, st: &mut Stats, cases: &[Case], python: &str, pymod: &str, seed: u64) -> String {
     // ---- replay through the module, sharded over processes
     let shards = 12usize;
     let dir = format!("/verif/.build/tmp/c14-{}", std::process::id());
@@ -103,7 +46,6 @@ pub fn run(ctx: &Ctx) -> i32 {
         let child = Command::new(&python).arg("/verif/py/c14_monitor.py").arg(pymod).arg(&path).arg(format!("{dir}/results-{k}.jsonl")).spawn();
         children.push(child);
     }
-    let mut st = Stats::new();
     for (k, ch) in children.into_iter().enumerate() {
         match ch {
             Err(e) => st.inconclusive(&format!("cannot start python: {e}")),
@@ -170,11 +112,87 @@ pub fn run(ctx: &Ctx) -> i32 {
                 d.dedup();
                 let unmatched: Vec<String> = p["unmatched"].as_array().map(|a| a.iter().map(|x| x.as_str().unwrap_or("?").to_string()).collect()).unwrap_or_default();
                 let is_d1 = kind == "test_case_not_matched" && c.d1 && d.len() >= 2 && !unmatched.is_empty() && unmatched.iter().all(|u| u.is_empty());
-                ctx.run.classify(&mut st, if is_d1 { Some("KF-D1") } else { None }, &kind, p["detail"].as_str().unwrap_or("").to_string(), case);
+                ctx.run.classify(st, if is_d1 { Some("KF-D1") } else { None }, &kind, p["detail"].as_str().unwrap_or("").to_string(), case);
             }
         }
     }
     let _ = std::fs::remove_dir_all(&dir);
+    python_version
+}
+
+pub fn replay(ctx: &Ctx, case: &Value) {
+    let pymod = "/verif/.build/pymod";
+    let python = std::fs::read_to_string(format!("{pymod}/python-path")).map(|s| s.trim().to_string()).unwrap_or_else(|_| "python3".into());
+    let (tcs, s) = case_from_json(case);
+    let mut st = Stats::new();
+    if let Some(c) = mk_case(tcs, s) {
+        through_module(ctx, &mut st, &[c], &python, pymod, ctx.seed());
+    }
+    ctx.run.merge(st);
+}
+
+pub fn run(ctx: &Ctx) -> i32 {
+    let seed = ctx.seed();
+    let pymod = "/verif/.build/pymod";
+    let python = std::fs::read_to_string(format!("{pymod}/python-path")).map(|s| s.trim().to_string()).unwrap_or_else(|_| "python3".into());
+    if !std::path::Path::new(&format!("{pymod}/grex.so")).exists() {
+        println!("[C14] ERROR: {pymod}/grex.so missing (build_python.sh failed?)");
+        return 3;
+    }
+    // ---- workload
+    let mut cases: Vec<Case> = vec![];
+    let widths = ["\u{80}", "\u{e9}", "\u{100}", "\u{fff}", "\u{1000}", "\u{ffff}", "\u{10000}", "\u{fffff}", "\u{100000}", "\u{10ffff}", "a", "\u{7f}", "💩", "♥"];
+    let esc_modes = [0, ESC, ESC | SURR];
+    let others: Vec<u32> = if ctx.thorough { vec![0, REP, VERB, CI, CAP, REP | VERB, NOSTART | NOEND, CI | VERB | CAP, DIGIT, NWORD | REP] } else { vec![0, REP, VERB, CI | CAP, NWORD] };
+    // every code point width alone, doubled, tripled, and next to each other width
+    for (i, w) in widths.iter().enumerate() {
+        for e in esc_modes {
+            for o in &others {
+                let s = Settings::new(e | o);
+                for t in [vec![w.to_string()], vec![w.repeat(3)], vec![format!("{w}{w}a"), w.to_string()]] {
+                    cases.extend(mk_case(t, s));
+                }
+                let v = widths[(i + 1) % widths.len()];
+                cases.extend(mk_case(vec![format!("{w}{v}"), format!("{v}{w}"), w.to_string()], s));
+            }
+        }
+    }
+    // every single setter and every pair on a discriminating input
+    let disc: Vec<String> = ["aaa bb 12 É💩.", "aaa bb", "a", "xyxyxy", "AAA BB"].iter().map(|s| s.to_string()).collect();
+    let flags: Vec<u32> = FLAG_NAMES.iter().map(|(_, f)| *f).filter(|f| *f != COLOR).collect();
+    for (i, &f) in flags.iter().enumerate() {
+        cases.extend(mk_case(disc.clone(), Settings::new(f).normalised()));
+        for &g in &flags[i + 1..] {
+            cases.extend(mk_case(disc.clone(), Settings::new(f | g).normalised()));
+        }
+    }
+    for m in 1..=3 {
+        for l in 1..=3 {
+            cases.extend(mk_case(disc.clone(), Settings::with(REP, m, l)));
+        }
+    }
+    // random
+    let n = if ctx.thorough { 40_000 } else { 3_000 };
+    let names = ["astral", "mixed", "meta", "ws", "graph", "case", "classes", "ab"];
+    let alphabets: Vec<Vec<String>> = names.iter().map(|a| gen::alphabet(a)).collect();
+    for i in 0..n {
+        let mut rng = Rng::new(seed, 0x140_0000 + i as u64);
+        let al = if i % 3 == 0 { &alphabets[0] } else { &alphabets[i % alphabets.len()] };
+        let tcs = gen::family(&mut rng, al);
+        let mut s = gen::settings(&mut rng, ALLOWED);
+        if rng.chance(1, 2) {
+            s.flags |= ESC;
+            if rng.chance(1, 3) {
+                s.flags |= SURR;
+            }
+        }
+        // thresholds must fit Python's i32 parameter
+        s.min_rep = s.min_rep.min(i32::MAX as u32);
+        s.min_len = s.min_len.min(i32::MAX as u32);
+        cases.extend(mk_case(tcs, s));
+    }
+    let mut st = Stats::new();
+    let python_version = through_module(ctx, &mut st, &cases, &python, pymod, seed);
     ctx.run.merge(st);
     ctx.run.finish(
         "cases = code points with 2,3,4,5,6 hex digits (U+0080 U+00E9 U+0100 U+0FFF U+1000 U+FFFF U+10000 U+FFFFF U+100000 U+10FFFF) alone, repeated and combined x {no escaping, escaping, escaping with surrogates} x other settings; every single setter and every pair of setters on a discriminating input; thresholds; random families over 8 alphabets x random settings (setter call order shuffled; constructor and from_test_cases alternated); error contract: [] and thresholds 0, -1, i32::MIN; non-trivial = an escape sequence was rewritten, or >=2 test cases with a setting; distinct by (set of test cases, settings)",
